@@ -8,7 +8,9 @@
    refutation of the uncorrected formula), C10_continuum.v (strain / energy / thermal / Jacobian
    of the moved element for all node data), C10_iso.v (isotropic C invariant)
 3. correspondence: pairs (problem, moved problem) solved by the implementation — elastic (all
-   laws, rotated axes), thermal, beams (EB / Timoshenko, 2-D / 3-D), rotations by generic angles,
+   laws, rotated axes), thermal, hyperelastic (NeoHookean / MooneyRivlin / SaintVenantKirchhoff /
+   HolzapfelOgden with out-of-plane fibre fields; static Newton + one dynamic step; stored energies),
+   beams (EB / Timoshenko, 2-D / 3-D), rotations by generic angles about off-origin axes,
    translations, reflections — compared after transforming back (1e-8).
 """
 import json
@@ -181,6 +183,29 @@ def gen_cases(ctx):
         # rotated L-frame with a tip moment (proper rotation)
         cases.append({"kind": "beam", "dim": 2, "timo": timo, "elemType": "SEG3", "points": shapes2[1], "F": [300.0, -800.0, 0.0], "M": [0, 0, 5000.0],
                       "angle": round(rng.uniform(5, 355), 1)})
+    # hyperelastic pairs: static Newton solve (+ one dynamic step), stored energy of a prescribed deformation
+    # and of the rigidly moved reference state; Holzapfel-Ogden with fibre / sheet directions OUT of the
+    # xy-plane, constant and per-Gauss-point, moved with the body
+    def mv3(dim):
+        t = {"build": rng.choice(["api", "coords"])}
+        k = rng.random()
+        if k < 0.7:
+            t["angle"] = round(rng.uniform(5, 355), 1)
+            t["axis"] = [0, 0, 1] if dim == 2 else [round(rng.uniform(-1, 1), 2), round(rng.uniform(-1, 1), 2), 1.0]
+            t["center"] = [round(rng.uniform(-2, 2), 2), round(rng.uniform(-2, 2), 2), 0 if dim == 2 else round(rng.uniform(-2, 2), 2)]
+        if k >= 0.4:
+            t["reflect"] = [round(rng.uniform(0.2, 1), 2), round(rng.uniform(-1, 1), 2), 0 if dim == 2 else round(rng.uniform(-1, 1), 2)]
+        t["translate"] = [round(rng.uniform(-3, 3), 2), round(rng.uniform(-3, 3), 2), 0 if dim == 2 else round(rng.uniform(-3, 3), 2)]
+        return t
+    for rep in range(1 if quick else 3):
+        for law, et in (("neo", "TRI3"), ("mooney", "QUAD4"), ("svk", "TRI6")):
+            cases.append(dict({"kind": "hyper", "dim": 2, "law": law, "elemType": et, "dynamic": law == "neo"}, **mv3(2)))
+        cases.append(dict({"kind": "hyper", "dim": 3, "law": rng.choice(["neo", "mooney", "svk"]), "elemType": rng.choice(["TETRA4", "PRISM6"])}, **mv3(3)))
+        cases.append(dict({"kind": "hyper", "dim": 3, "law": "ho", "fibres": "field", "elemType": "HEXA8", "dynamic": True,
+                           "angle": 48.0, "axis": [2, -1, 1.5], "center": [0.4, 1.7, -0.9], "translate": [-3, 1, 2.5], "build": "api"}))
+        cases.append(dict({"kind": "hyper", "dim": 3, "law": "ho", "fibres": "field", "elemType": "HEXA8", "tilt": round(rng.uniform(15, 60), 1)}, **dict(mv3(3), reflect=[1, -2, 2])))
+        cases.append(dict({"kind": "hyper", "dim": 3, "law": "ho", "fibres": rng.choice(["const", "const_vector"]), "elemType": rng.choice(["HEXA8", "PRISM6"]),
+                           "tilt": round(rng.uniform(15, 60), 1)}, **mv3(3)))
     cases += [{"kind": "Bcheck", "dim": 2, "seed": rng.randint(0, 10**6)}, {"kind": "Bcheck", "dim": 3, "seed": rng.randint(0, 10**6)}]
     return cases
 
@@ -191,6 +216,8 @@ def classify(c, r, beam):
         cls = "beam:%s:%dD" % ("Timoshenko" if c.get("timo") else "EB", c["dim"])
     elif c["kind"] == "elastic":
         cls = "elastic:%s:%dD" % (c["law"], c["dim"])
+    elif c["kind"] == "hyper":
+        cls = "hyper:%s%s:%dD" % (c["law"], (":" + c.get("fibres", "field")) if c["law"] == "ho" else "", c["dim"])
     else:
         cls = c["kind"]
     if c["kind"] == "Bcheck":
@@ -237,7 +264,7 @@ def correspondence(ctx, beam, holder):
     for c, r in zip(cases, res):
         cls, moved, key = classify(c, r, beam)
         tag = cls + ":" + moved + (":" + c["build"] if "build" in c else "") + (":field-loads" if c.get("loads") == "field" else "") + (":pressure" if c.get("pressure") else "") \
-            + (":moment" if c.get("M") else "") + (":frame" if len(c.get("points", [])) > 2 else "")
+            + (":moment" if c.get("M") else "") + (":frame" if len(c.get("points", [])) > 2 else "") + (":dynamic-step" if c.get("dynamic") else "")
         dist[tag] = dist.get(tag, 0) + 1
         ctx.note_case(None if c["kind"] == "Bcheck" else "%s:%s:%s" % (tag, c.get("elemType"), c.get("angle")))
         if "raises" in r:
